@@ -1,7 +1,7 @@
 (* Properties_C08.v — C08: handlers are atomic; nothing runs under an interrupt mask. *)
 From Coq Require Import ZArith List Bool Lia.
 Import ListNotations.
-From Ygm Require Import RankMachine RankInv.
+From Ygm Require Import RankMachine RankInv RankSafe.
 
 (* re-entering process_receive_queue while a received buffer is being handled is impossible: it is an
    immediate assertion failure before any MPI call (so a handler's async / local_progress cannot poll) *)
@@ -22,3 +22,42 @@ Theorem C08_check_halt_deferred : forall c fuel s,
   (intr s = false \/ inprq s = true) -> (0 < fuel)%nat -> run fuel c PCheckHalt s = Ok s.
 Proof. exact check_halt_deferred. Qed.
 Print Assumptions C08_check_halt_deferred.
+
+
+(* THE MAIN THEOREM.  For every configuration whose handler and callback programs only use what a handler
+   may use (asyncs of every kind, broadcasts, local_progress, flags, callback registration: [legal_h]), every
+   main program with well-bracketed interrupt masks and no barrier under a mask ([legal_main]), every
+   sequence of MPI responses (= every schedule, every arrival order, every peer behaviour) and every length of
+   execution — finished, blocked in an MPI call, or stopped by a failed assertion:
+   every handler starts at nesting depth 0 (no handler is active, so handlers never interleave or nest) and
+   with no interrupt mask alive.  The depth / mask numbers in the model's NX events are the same numbers the
+   hooks of the real library print (X notes), compared event by event by the lock-step replay. *)
+Theorem C08_handlers_never_nest_nor_run_masked :
+  forall c,
+    (forall u, forallb legal_h (c_hprog c u) = true) ->
+    (forall i, forallb legal_h (c_cbprog c i) = true) ->
+  forall fuel nranks main orc,
+    legal_main O main = Some O ->
+    match run_rank fuel c nranks main orc with
+    | Ok s' | Blocked s' | Err _ s' => forall u d m, In (NX u d m) (log s') -> d = O /\ m = O
+    | OutOfFuel => True
+    end.
+Proof. exact handlers_never_nest_nor_run_masked. Qed.
+Print Assumptions C08_handlers_never_nest_nor_run_masked.
+
+(* the hypotheses are satisfiable by a run in which a handler really executes (and sends, and registers a callback) *)
+Local Open Scope Z_scope.
+Definition c0 : cfg := {| c_n := 2; c_p := 1; c_me := 0; c_routing := 0; c_cap := 16; c_nisw := 4; c_freq := 0;
+  c_hprog := fun u => if u =? 5 then [AAsync 1 6 4; ACb 1] else []; c_cbprog := fun _ => [AAsync 1 9 0] |}.
+Definition m5 := {| uid := 5; mdest := 0; stage := 0; hk := 0; len := 3; extra := 0 |}.
+Definition main0 := [AAsync 1 7 40; AMon; AAsync 1 8 40; AMoff; ALp].
+Definition orc0 := [RTestSend true; RTestRecv (Some [m5]); RTestRecv None; RTestSend true; RTestRecv None].
+Example C08_main_theorem_not_vacuous :
+  (forall u, forallb legal_h (c_hprog c0 u) = true) /\ (forall i, forallb legal_h (c_cbprog c0 i) = true) /\
+  legal_main O main0 = Some O /\
+  exists s, run_rank 1000 c0 2 main0 orc0 = Blocked s /\ In (NX 5 0 0) (log s) /\ In (NO 6) (log s).
+Proof.
+  split; [intros u; cbn; destruct (u =? 5); reflexivity|].
+  split; [intros i; reflexivity|]. split; [reflexivity|].
+  eexists. split; [vm_compute; reflexivity|]. split; cbn; tauto.
+Qed.
